@@ -430,6 +430,7 @@ class Result:
         self.clause_ids = []       # all labelled ids, in order
         self.canary_fns = []
         self.canary_lines = {}
+        self.proof_lines = []      # generated line ranges that are spliced proof text (hints), not repository code
 
     def fn_at(self, line):
         for f in self.fnspans:
@@ -439,6 +440,9 @@ class Result:
 
     def label_at(self, line):
         return self.labels.get(line)
+
+    def in_proof_text(self, line):
+        return any(a <= line <= b for a, b in self.proof_lines)
 
     def region_at(self, line):
         for a, b, r in self.regions:
@@ -945,7 +949,9 @@ class Extractor:
                     seg_maps.append((ls, out.lineno - 1, repo_line))
                     repo_line += pending.count('\n')
                     pending = ''
+                ps = out.lineno
                 out.add(text.strip('\n'), label_scan=True)
+                res.proof_lines.append((ps, out.lineno - 1))
             else:
                 pending += text
         if pending:
